@@ -22,7 +22,7 @@
 From Coq Require Import List String Arith Bool Lia.
 Import ListNotations.
 From MVGen Require Import JsGates_gen.
-From MV Require Import Js.PrintModel Js.PrintSpec Js.PrintGen Js.PrintProofs Js.PrintGroup.
+From MV Require Import Js.PrintModel Js.PrintSpec Js.PrintGen Js.PrintProofs Js.PrintGroup Js.RewriteModel Js.RewriteSem Js.RewriteProofs.
 Local Open Scope string_scope.
 
 Example js_prec_tables_ok : prec_tables_ok T_gen = true.
@@ -79,6 +79,61 @@ Print Assumptions group_sites_ok.
 
 Example group_sites_nonvacuous : (20 <= List.length js_group_sites)%nat.
 Proof. vm_compute. repeat constructor. Qed.
+
+(* ---------- the on-the-fly REWRITES preserve behaviour ----------
+   Js/RewriteModel.v transcribes optimizeUnaryExpr, optimizeBooleanExpr and optimizeCondExpr (double negation, != for
+   !(==), De Morgan with its size score, a?true:false, a?a:b -> a||b, a?b:a -> a&&b, a?b:b -> a,b, a?f(x):f(y) -> f(a?x:y),
+   a?(b?x:y):y -> a&&b?x:y, !a?x:y -> a?y:x, constant conditions, the (a,b)?c:d hoisting); the transcription is compared
+   with the real js.Minify on 6,000 expressions per run (print_rw).  Js/RewriteSem.v: values with truthiness, a store,
+   effect-free identifier reads (the minifier's own assumption), arbitrary state transformers for calls, ==, relational
+   and arithmetic operators, code-free === ! typeof void && || ?? ?: comma.
+   For EVERY expression, store and interpretation of the abstract operators the rewritten node evaluates to the same value
+   and leaves the same store (so: same side effects in the same order).  The one exception is excluded by the decidable
+   hypothesis const_assign_hazard and is a finding on the real code (K118: `(undefined=a)?undefined:b`). *)
+Section Rewrites.
+  Variables (V S : Type) (truthy : V -> bool) (vtrue vfalse vundef vinf : V).
+  Hypothesis truthy_true : truthy vtrue = true.
+  Hypothesis truthy_false : truthy vfalse = false.
+  Hypothesis truthy_undef : truthy vundef = false.
+  Variables (var : String.string -> S -> V) (assign : String.string -> V -> S -> S).
+  Hypothesis var_assign_same : forall x v s, var x (assign x v s) = v.
+  Variables (call : V -> V -> S -> V * S) (strict_eq : V -> V -> bool) (loose_eq : V -> V -> S -> bool * S)
+            (compare : String.string -> V -> V -> S -> bool * S) (arith : String.string -> V -> V -> S -> V * S)
+            (pure_unop : String.string -> V -> V) (unop member : String.string -> V -> S -> V * S)
+            (index : V -> V -> S -> V * S) (nullish : V -> bool).
+  Notation ev := (eval T_gen V S truthy vtrue vfalse vundef vinf var assign call strict_eq loose_eq compare arith pure_unop unop member index nullish).
+
+  Theorem rewrites_preserve_value_and_effects : forall e prec s,
+    const_assign_hazard T_gen e = false -> ev (rewrite_node T_gen e prec) s = ev e s.
+  Proof.
+    intros e prec s H.
+    apply (rewrite_node_sound T_gen V S truthy vtrue vfalse vundef vinf truthy_true truthy_false truthy_undef var assign var_assign_same
+             call strict_eq loose_eq compare arith pure_unop unop member index nullish); [vm_compute; reflexivity | exact H].
+  Qed.
+
+  Theorem not_pushing_preserves : forall e prec s, ev (optimize_unary T_gen e prec) s = ev e s.
+  Proof.
+    intros e prec s.
+    apply (optimize_unary_sound T_gen V S truthy vtrue vfalse vundef vinf truthy_true truthy_false var assign
+             call strict_eq loose_eq compare arith pure_unop unop member index nullish). vm_compute. reflexivity.
+  Qed.
+
+  Theorem call_merge_condition_is_effect_free : forall e, may_run_code e = false -> forall s, snd (ev e s) = s.
+  Proof.
+    intros e H s.
+    apply (no_code_no_effect T_gen V S truthy vtrue vfalse vundef vinf var assign
+             call strict_eq loose_eq compare arith pure_unop unop member index nullish); [vm_compute; reflexivity | exact H].
+  Qed.
+End Rewrites.
+Print Assumptions rewrites_preserve_value_and_effects.
+Print Assumptions not_pushing_preserves.
+Print Assumptions call_merge_condition_is_effect_free.
+
+(* the excluded case is real: K118 on the model — (undefined = a) ? undefined : b with a = 5 evaluates to undefined (2 in the
+   concrete interpretation), its rewriting (undefined = a) || b to 5 *)
+Example rewrite_hazard_is_real :
+  ~ (forall e prec s, ConstAssignCounterexample.ev (optimize_cond T_gen e prec) s = ConstAssignCounterexample.ev e s).
+Proof. exact ConstAssignCounterexample.rewrite_not_sound_without_hypothesis. Qed.
 
 (* non-vacuity: (a+b)*(c*d) keeps both pairs, (a*b)+c drops its pair; both trees satisfy wf *)
 Example print_nonvacuous :
